@@ -114,7 +114,19 @@ func verifRepresentable(p verifKinds, c string) bool {
 func VerifC24CSV() {
 	pre, l, post := zzverif.Param("PRE"), zzverif.Param("L"), zzverif.Param("POST")
 	cells := make([]string, pre+post)
+	fixed := 0
+	if zzverif.ParamOr("FIX", 0) == 1 {
+		// FIX=1: all previewed cells but the last come from a small catalogue of kinds (empty, int,
+		// text, boolean, float) chosen by forking; only the last previewed cell (and the one beyond
+		// the preview) is an arbitrary byte string. Reaches unions of three kinds cheaply.
+		fixed = pre - 1
+	}
+	catalogue := []string{"", "1", "x", "t", "2.5"}
 	for i := range cells {
+		if i < fixed {
+			cells[i] = catalogue[zzverif.Choice(fmt.Sprintf("c%d.kind", i), len(catalogue))]
+			continue
+		}
 		cells[i] = verifCell(fmt.Sprintf("c%d", i), l)
 	}
 	content := "k,v\n"
